@@ -117,6 +117,11 @@ def flushGz (w : W) : W :=
     let a := w.orcF.headD 0
     { w with cur := some ⟨m.payload, m.clen + a⟩, cwN := w.cwN + a, orcF := w.orcF.tail }
 
+/-- Reading `w.cw.n` while a stream is open and was not just flushed (`prevOffset := w.cw.n` at the
+start of `appendTar`): the compressor may have pushed bytes on its own since the last flush (gzip
+writes its header at the first `Write`); the oracle says how many. -/
+def spillGz (w : W) : W := flushGz w
+
 /-- `closeGz`: the stream is finished (at least one more byte), `w.gz = nil`. -/
 def closeGz (w : W) : W :=
   match w.cur with
@@ -183,7 +188,7 @@ def appendEntries (P : Params) : W × Loc → List TarEnt → Option (W × Loc)
 /-- `appendTar(r, lossless)`; `tail` = what follows the last entry in the source (end-of-archive
 blocks and anything after them): kept in lossless mode, discarded otherwise. -/
 def appendTar (P : Params) (w : W) (ents : List TarEnt) (tail : Bytes) : Option W :=
-  match appendEntries P (w, ⟨w.cwN, 0⟩) ents with
+  match appendEntries P (spillGz w, ⟨(spillGz w).cwN, 0⟩) ents with
   | none => none
   | some (w', _) => some (if P.lossless ∧ tail ≠ [] then write w' tail else w')
 
